@@ -82,6 +82,8 @@ def run(rep, tier):
     rep.rule("R1", "dump_code2/dump_code3 emit the field sequence and widths of the code-object layout of every version the accepted class serves")
     rep.rule("R2", "write_bytecode_file writes the header layout load_module reads for the same magic (magic bytes, PEP 552 flag word, timestamp, source size)")
     rep.rule("R3", "each portable class is dispatched to a writer that emits its layout, or raises; classes whose fields the writer never emits are refused")
+    rep.rule("R5", "the reading half of the round trip: every obligation of the unmarshaller (C01 rules: per-type layouts and kinds, unpack formats, "
+                   "reference table, t_code field sequence and bindings, bytes-vs-text, fields kept by the portable classes) holds")
     rep.rule("R4", "dumps() converts str chunks byte-for-byte (one byte per char) and passes bytes chunks through unchanged")
     T = tables()
     F = T.F
@@ -231,5 +233,12 @@ def run(rep, tier):
                     passthrough = True
     rep.ob("R4", d.qualname, "str-chunks-one-byte-per-char", byte_per_char, expected="bytes(ord(c) for c in chunk)", derived=byte_per_char)
     rep.ob("R4", d.qualname, "bytes-chunks-unchanged-in-order", passthrough and joined, expected="buf.append(b); b''.join(buf)", derived=[passthrough, joined])
+    # ---------------------------------------------------------------- R5 the reader (shared engine with C01 / C10)
+    from ..report import SubReport, merge_sub
+    from . import c01
+    sub = SubReport("C01", tier=tier)
+    c01.run(sub, tier)
+    merge_sub(rep, sub, "R5", "C01")
+    rep.configurations += sub.configurations
     rep.assumptions = ["reference/code_layout.json and pyc_header.json as in C01/C06", "class -> served versions as selected by codeType2Portable",
                        "equality of executed behaviour, the round trip of constants' values and the py2 str/unicode distinction lost at read time are not decided"]
